@@ -1,1 +1,385 @@
+/* wgl.c — Wing-Gong-Lowe linearizability checker (uninstrumented) */
 #include "wgl.h"
+#include "../usim/usim.h"
+#include <string.h>
+#include <stdlib.h>
+#include <stdio.h>
+
+struct wstate {
+	uint8_t qlen[2];
+	uint8_t q[2][WGL_MAXLIST];
+	uint8_t tlen[4];
+	uint8_t tvalid[4];
+	uint8_t tmp[4][WGL_MAXLIST];
+	uint64_t set;
+};
+
+static struct wstate init_state;
+
+void wgl_init(struct wgl_hist *h, int model)
+{
+	memset(h, 0, sizeof(*h));
+	h->model = model;
+	memset(&init_state, 0, sizeof(init_state));
+}
+
+void wgl_initial_add(struct wgl_hist *h, int a, int id)
+{
+	if (h->model == WGL_SET)
+		init_state.set |= 1ULL << id;
+	else if (init_state.qlen[a] < WGL_MAXLIST)
+		init_state.q[a][init_state.qlen[a]++] = (uint8_t) id;
+}
+
+int wgl_full(const struct wgl_hist *h) { return h->n >= WGL_MAXOPS; }
+
+int wgl_begin(struct wgl_hist *h, int kind, int a, int b)
+{
+	struct wgl_op *op;
+	if (h->n >= WGL_MAXOPS)
+		usim_bug("wgl: history too long");
+	op = &h->ops[h->n];
+	memset(op, 0, sizeof(*op));
+	op->kind = kind;
+	op->a = a;
+	op->b = b;
+	op->after = -1;
+	op->thread = usim_tid();
+	op->r2 = -1;
+	op->inv = usim_seq();
+	op->ret = ~0ULL;
+	return h->n++;
+}
+
+void wgl_end(struct wgl_hist *h, int idx, long r)
+{
+	h->ops[idx].r = r;
+	h->ops[idx].ret = usim_seq();
+}
+
+void wgl_end2(struct wgl_hist *h, int idx, long r, long r2)
+{
+	h->ops[idx].r2 = r2;
+	wgl_end(h, idx, r);
+}
+
+void wgl_list_add(struct wgl_hist *h, int idx, int id)
+{
+	struct wgl_op *op = &h->ops[idx];
+	if (op->nlist >= WGL_MAXLIST)
+		usim_bug("wgl: list too long");
+	op->list[op->nlist++] = (uint8_t) id;
+}
+
+void wgl_set_after(struct wgl_hist *h, int idx, int after) { h->ops[idx].after = after; }
+
+void wgl_cancel(struct wgl_hist *h, int idx)
+{
+	h->ops[idx].kind = -1;
+	h->ops[idx].ret = usim_seq();
+}
+
+int wgl_has_overlap(const struct wgl_hist *h)
+{
+	int i, j;
+	for (i = 0; i < h->n; i++)
+		for (j = i + 1; j < h->n; j++) {
+			const struct wgl_op *a = &h->ops[i], *b = &h->ops[j];
+			if (a->kind < 0 || b->kind < 0 || a->thread == b->thread)
+				continue;
+			if (a->inv < b->ret && b->inv < a->ret)
+				return 1;
+		}
+	return 0;
+}
+
+/* ---- models ---- */
+
+static int apply(int model, struct wstate *s, const struct wgl_op *op)
+{
+	int i, q = op->a;
+	(void) model;
+
+	switch (op->kind) {
+	case WQ_ENQ:
+		if (op->r >= 0 && (op->r != 0) != (s->qlen[q] != 0))
+			return 0;
+		if (s->qlen[q] >= WGL_MAXLIST)
+			return 0;
+		s->q[q][s->qlen[q]++] = (uint8_t) op->b;
+		return 1;
+	case WQ_DEQ:
+		if (op->r < 0)
+			return s->qlen[q] == 0;
+		if (!s->qlen[q] || s->q[q][0] != op->r)
+			return 0;
+		memmove(&s->q[q][0], &s->q[q][1], s->qlen[q] - 1);
+		s->qlen[q]--;
+		return 1;
+	case WQ_EMPTY:
+		return (op->r != 0) == (s->qlen[q] == 0);
+	case WQ_SPLICE_DRAIN:
+		s->tlen[op->b] = s->qlen[q];
+		memcpy(s->tmp[op->b], s->q[q], s->qlen[q]);
+		s->tvalid[op->b] = 1;
+		s->qlen[q] = 0;
+		return 1;
+	case WQ_SPLICE_APPEND: {
+		int t = op->b;
+		if (!s->tvalid[t])
+			return 0;
+		if (s->tlen[t] == 0) {
+			if (op->r != 0)
+				return 0;
+		} else {
+			if (op->r == 0)
+				return 0;
+			if ((op->r == 1) != (s->qlen[q] == 0))
+				return 0;
+			if (s->qlen[q] + s->tlen[t] > WGL_MAXLIST)
+				return 0;
+			memcpy(&s->q[q][s->qlen[q]], s->tmp[t], s->tlen[t]);
+			s->qlen[q] += s->tlen[t];
+		}
+		s->tvalid[t] = 0;
+		s->tlen[t] = 0;
+		return 1;
+	}
+	case WQ_ITER:
+		if (op->nlist != s->qlen[q])
+			return 0;
+		return memcmp(op->list, s->q[q], op->nlist) == 0;
+	case WS_PUSH:
+		if (op->r >= 0 && (op->r != 0) != (s->qlen[0] != 0))
+			return 0;
+		if (s->qlen[0] >= WGL_MAXLIST)
+			return 0;
+		s->q[0][s->qlen[0]++] = (uint8_t) op->b;
+		return 1;
+	case WS_POP:
+		if (op->r < 0)
+			return s->qlen[0] == 0;
+		if (!s->qlen[0] || s->q[0][s->qlen[0] - 1] != op->r)
+			return 0;
+		s->qlen[0]--;
+		if (op->r2 >= 0 && (op->r2 != 0) != (s->qlen[0] == 0))
+			return 0;
+		return 1;
+	case WS_POP_ALL:
+		if (op->nlist != s->qlen[0])
+			return 0;
+		for (i = 0; i < op->nlist; i++)
+			if (op->list[i] != s->q[0][s->qlen[0] - 1 - i])
+				return 0;
+		s->qlen[0] = 0;
+		return 1;
+	case WS_EMPTY:
+		return (op->r != 0) == (s->qlen[0] == 0);
+	case WH_ADD:
+		if (s->set & (1ULL << op->b))
+			return 0;
+		s->set |= 1ULL << op->b;
+		return 1;
+	case WH_ADD_UNIQUE:
+		if (op->r == op->b) {
+			if (s->set)
+				return 0;
+			s->set |= 1ULL << op->b;
+			return 1;
+		}
+		return op->r >= 0 && (s->set & (1ULL << op->r)) != 0;
+	case WH_ADD_REPLACE:
+		if (op->r < 0) {
+			if (s->set)
+				return 0;
+			s->set |= 1ULL << op->b;
+			return 1;
+		}
+		if (!(s->set & (1ULL << op->r)))
+			return 0;
+		s->set &= ~(1ULL << op->r);
+		s->set |= 1ULL << op->b;
+		return 1;
+	case WH_REPLACE:
+		if (op->r == 0) {
+			if (!(s->set & (1ULL << op->a)))
+				return 0;
+			s->set &= ~(1ULL << op->a);
+			s->set |= 1ULL << op->b;
+			return 1;
+		}
+		return !(s->set & (1ULL << op->a));
+	case WH_DEL:
+		if (op->r == 0) {
+			if (!(s->set & (1ULL << op->b)))
+				return 0;
+			s->set &= ~(1ULL << op->b);
+			return 1;
+		}
+		return !(s->set & (1ULL << op->b));
+	case WH_LOOKUP:
+		if (op->r < 0)
+			return s->set == 0;
+		return (s->set & (1ULL << op->r)) != 0;
+	case WH_WALK: {
+		uint64_t m = 0;
+		for (i = 0; i < op->nlist; i++)
+			m |= 1ULL << op->list[i];
+		return m == s->set;
+	}
+	case WH_ABSENT_OK:
+		return 1;
+	}
+	return 0;
+}
+
+/* ---- memo ---- */
+
+struct memo_ent { uint64_t key; uint64_t mask; uint32_t used; };
+static struct memo_ent *memo;
+static uint32_t memo_cap, memo_n;
+
+static uint64_t hash_state(uint64_t mask, const struct wstate *s)
+{
+	const uint8_t *p = (const uint8_t *) s;
+	uint64_t h = 0xcbf29ce484222325ULL ^ mask;
+	size_t i;
+	for (i = 0; i < sizeof(*s); i++) {
+		h ^= p[i];
+		h *= 0x100000001b3ULL;
+	}
+	h ^= h >> 31;
+	return h ? h : 1;
+}
+
+static int memo_test_and_set(uint64_t mask, uint64_t key)
+{
+	uint32_t i;
+	if (memo_n * 2 >= memo_cap) {
+		uint32_t ncap = memo_cap ? memo_cap * 2 : 1 << 12, j;
+		struct memo_ent *nm = calloc(ncap, sizeof(*nm));
+		for (j = 0; j < memo_cap; j++)
+			if (memo[j].used) {
+				uint32_t k = (uint32_t) (memo[j].key ^ (memo[j].mask * 0x9e3779b97f4a7c15ULL) >> 13) & (ncap - 1);
+				while (nm[k].used)
+					k = (k + 1) & (ncap - 1);
+				nm[k] = memo[j];
+			}
+		free(memo);
+		memo = nm;
+		memo_cap = ncap;
+	}
+	i = (uint32_t) (key ^ (mask * 0x9e3779b97f4a7c15ULL) >> 13) & (memo_cap - 1);
+	while (memo[i].used) {
+		if (memo[i].key == key && memo[i].mask == mask)
+			return 1;
+		i = (i + 1) & (memo_cap - 1);
+	}
+	memo[i].used = 1;
+	memo[i].key = key;
+	memo[i].mask = mask;
+	memo_n++;
+	return 0;
+}
+
+static const struct wgl_hist *H;
+static uint64_t ALL;
+static uint64_t explored;
+static uint64_t best_mask;
+static int best_count;
+
+static int popcount32(uint64_t x) { return __builtin_popcountll(x); }
+
+static int search(uint64_t mask, const struct wstate *s)
+{
+	uint64_t minret = ~0ULL;
+	int i;
+
+	if (mask == ALL)
+		return 1;
+	if (memo_test_and_set(mask, hash_state(mask, s)))
+		return 0;
+	if (++explored > 4000000)
+		return -1;
+	if (popcount32(mask) > best_count) {
+		best_count = popcount32(mask);
+		best_mask = mask;
+	}
+	for (i = 0; i < H->n; i++)
+		if (!(mask & (1ULL << i)) && H->ops[i].kind >= 0 && H->ops[i].ret < minret)
+			minret = H->ops[i].ret;
+	for (i = 0; i < H->n; i++) {
+		const struct wgl_op *op = &H->ops[i];
+		struct wstate s2;
+		int r;
+		if ((mask & (1ULL << i)) || op->kind < 0)
+			continue;
+		if (op->inv > minret)
+			continue;	/* some other pending op returned before this one was invoked */
+		if (op->after >= 0 && !(mask & (1ULL << op->after)))
+			continue;
+		s2 = *s;
+		if (!apply(H->model, &s2, op))
+			continue;
+		r = search(mask | (1ULL << i), &s2);
+		if (r)
+			return r;
+	}
+	return 0;
+}
+
+static const char *kname(int k)
+{
+	static const char *const n[] = { "enq", "deq", "empty", "splice_drain", "splice_append", "iter",
+		"push", "pop", "pop_all", "stack_empty", "add", "add_unique", "add_replace", "replace",
+		"del", "lookup", "walk", "nop" };
+	return k >= 0 && k < (int) (sizeof(n) / sizeof(n[0])) ? n[k] : "?";
+}
+
+int wgl_check(struct wgl_hist *h, char *why, int whylen)
+{
+	int i, r, n = 0;
+
+	H = h;
+	ALL = 0;
+	for (i = 0; i < h->n; i++) {
+		if (h->ops[i].kind >= 0)
+			ALL |= 1ULL << i;
+		if (h->ops[i].kind >= 0 && h->ops[i].ret == ~0ULL)
+			usim_bug("wgl: operation %d never returned", i);
+	}
+	free(memo);
+	memo = NULL;
+	memo_cap = memo_n = 0;
+	explored = 0;
+	best_mask = 0;
+	best_count = -1;
+	r = search(0, &init_state);
+	h->states_explored = explored;
+	if (r == 1)
+		return 1;
+	if (r < 0)
+		return 1;	/* budget exhausted: inconclusive, never an alarm */
+	if (why) {
+		n += snprintf(why + n, whylen - n, "no linearization exists; history:");
+		for (i = 0; i < h->n && n < whylen - 80; i++) {
+			const struct wgl_op *op = &h->ops[i];
+			int k;
+			if (op->kind < 0)
+				continue;
+			n += snprintf(why + n, whylen - n, " [%d T%d %s(a=%d,b=%d)->%ld", i, op->thread,
+				kname(op->kind), op->a, op->b, op->r);
+			if (op->r2 >= 0)
+				n += snprintf(why + n, whylen - n, "/%ld", op->r2);
+			if (op->nlist || op->kind == WQ_ITER || op->kind == WS_POP_ALL || op->kind == WH_WALK) {
+				n += snprintf(why + n, whylen - n, " {");
+				for (k = 0; k < op->nlist && n < whylen - 40; k++)
+					n += snprintf(why + n, whylen - n, "%s%d", k ? "," : "", op->list[k]);
+				n += snprintf(why + n, whylen - n, "}");
+			}
+			n += snprintf(why + n, whylen - n, " @%lu-%lu]", (unsigned long) op->inv, (unsigned long) op->ret);
+		}
+		n += snprintf(why + n, whylen - n, " ; longest linearizable prefix set mask=%#lx", (unsigned long) best_mask);
+	}
+	return 0;
+}
